@@ -305,3 +305,17 @@ _add6("C16", "a statement that assigns the basic code of an existing SMTP error 
 _add6("C18", "the queue keeps a recipient under the very string it was given (C10.R5 as R17) and the metadata object it was given (C10.R3e as R18); a store into the table field of a private value copy is not a replacement of the message's table (R8).")
 _add6("C19", "within one iteration no path both closes a connection and returns it to the pool (R17); no loop over all deliveries runs inside the committing loop (R18).")
 _add6("C20", "a character read with ReadRune is pushed back with UnreadRune, never UnreadByte (R8).")
+# ---- round eleven (DESIGN.md §R.20)
+for _id in list(CLAIMED):
+    _add6(_id, "Round 11: discipline rules E15 (the operand of an in-place filter `x[:0]` that is appended to was allocated by the function itself – never a parameter, a struct field or a package-level list) and E16 (a loop that comes back to a receive from a *time.Timer's channel re-arms the timer on every way round) on every function of the property's packages.", ref=", §R.20")
+_add6("C04", "no constant is stored into the reply's basic code after the code the error carries was copied (R15).", ref="")
+_add6("C05", "the per-MX policy look-up is started (PrepareConn) in the very function that awaits it (CheckConn) (C13.R13 as R17).", ref="")
+_add6("C07", "the SPF identities reported for alignment never derive from dns.FQDN (R18); dmarc.isAligned converts both domains to A-labels before comparing (R19); check.spf and check.dkim are among the property's packages (E1-E16, E5/E6).", ref="")
+_add6("C10", "queueDelivery.Body keeps no buffer but the one storeNewMessage returned for the first attempt (R3f); the UTF-8 validity rule follows the verdict of an extracted validation helper (R11).", ref="")
+_add6("C12", "the capacity of the delivery semaphore is at least 1 where it is created – the guard may sit in Init (R21).", ref="")
+_add6("C13", "the per-MX policy look-up is started in the very function that awaits it (R13).", ref="")
+_add6("C14", "in every hash compute / verify function the password parameter is used whole, never sliced, indexed or copied into a buffer of fixed size (R9); auth_map and auth_map_normalize are registered with the same inherit flag by every endpoint (R10); bcrypt.CompareHashAndPassword is unreachable for a password of more than 72 bytes (R11); internal/table is among the property's packages.", ref="")
+_add6("C15", "internal/table is among the property's packages (a look-up result is never a buffer shared between transactions: E15).", ref="")
+_add6("C16", "no constant is stored into the reply's basic code after the code the error carries was copied (C04.R15 as R15).", ref="")
+_add6("C17", "the functions of framework/address and of framework/dns' normalisation refer to package-level variables only as constants – no pool, buffer or assigned variable (R13).", ref="")
+_add6("C19", "mxConn.Usable answers false in each of the worlds 'client nil', 'connection nil', 'errored' (R19); pool.New assigns a negative MaxConnsPerKey before keeping the configuration (R20); R15 admits a clamp that is unreachable for the values 0 and 1.", ref="")
